@@ -132,7 +132,10 @@ def build(seed, tier):
         elif c < 0.645:
             ops.append({'op': 'check_exists', 'n': ro.randint(0, 8)})
         elif c < 0.65:
-            # the script separates again (e.g. two graders' snippets glued together): sections start over
+            # the script separates again (e.g. two graders' snippets glued together): sections start over -
+            # either by the plain call, or by handing the same text to set_source(..., sections=...) once more
+            # (set_source(..., sections=...) while sections are active is NOT generated: it pushes a backup of its own
+            # between the two sectionings and which text is then "the file" is not defined by the property - DESIGN 8)
             ops.append({'op': 'separate_again'})
             k = 0
         elif c < 0.665:
@@ -278,7 +281,14 @@ def execute(spec):
             if kind == 'next_section':
                 guarded(o, next_section)
             elif kind == 'separate_again':
-                guarded(o, lambda: separate_into_sections(**kw))
+                if op.get('via_set_source'):
+                    from pedal.source import set_source as _set_source
+                    guarded(o, lambda: _set_source(original, filename=main_file,
+                                                   sections=spec['pattern'] if spec['pattern'] is not None else True,
+                                                   independent=spec['independent']))
+                    o['extra_substitutions'] = 1          # set_source keeps its own backup until the end
+                else:
+                    guarded(o, lambda: separate_into_sections(**kw))
             elif kind in ('verify', 'tifa'):
                 code = sub.main_code
                 lines = code.split('\n')
@@ -438,6 +448,7 @@ def judge(spec, res):
     active = True          # a section (incl. the prologue) is active
     past_end = False
     past_end_whole = False
+    stack_tolerant = False
     stopped = False
     for op, o in zip(spec['ops'], obs[1:]):
         kind = op['op']
@@ -449,6 +460,8 @@ def judge(spec, res):
         if kind == 'separate_again':
             if stopped:
                 continue
+            if op.get('via_set_source'):
+                stack_tolerant = True      # set_source keeps backups of its own on the stack (restore_code() takes them off)
             k = 0
             past_end = False
             past_end_whole = False
@@ -603,7 +616,7 @@ def judge(spec, res):
             if o['main_code'] != original:
                 viol('main-code-not-restored', 'after %s main_code is %r...' % (kind, o['main_code'][:40]), '/after=%s' % kind)
                 return vs
-            if o.get('substitutions'):
+            if o.get('substitutions') and not stack_tolerant:
                 viol('substitution-stack-not-empty', 'after %s: %d substitution(s) left' % (kind, o['substitutions']), '/after=%s' % kind)
                 return vs
             stopped = True
